@@ -3,7 +3,6 @@ package modifiers
 import (
 	"encoding/json"
 
-	"github.com/nyaruka/gocommon/stringsx"
 	"github.com/nyaruka/goflow/assets"
 	"github.com/nyaruka/goflow/envs"
 	"github.com/nyaruka/goflow/flows"
@@ -36,7 +35,7 @@ func NewName(name string) *NameModifier {
 // Apply applies this modification to the given contact
 func (m *NameModifier) Apply(eng flows.Engine, env envs.Environment, sa flows.SessionAssets, contact *flows.Contact, log flows.EventCallback) bool {
 	// truncate value if necessary
-	name := stringsx.Truncate(m.Name, eng.Options().MaxFieldChars)
+	name := utils.Truncate(m.Name, eng.Options().MaxFieldChars)
 
 	if contact.Name() != name {
 		contact.SetName(name)
